@@ -103,6 +103,12 @@ GROUPS = [
     # get / remove: heavy (symbolic offsets into the result buffer); admitted to the thorough tier for the two structures that finish reliably
     ag('get_remove', 'h_get_remove', ['qhasharr_get_by_obj', 'get_data', 'get_idx', 'qhasharr_remove_by_obj', 'qhasharr_remove_by_idx', 'qhasharr_size'],
        [dict(HM=2, IMGID=n, _IMG_INIT=cinit(images(2)[n]), unwind=5, tier='thorough', timeout=2400) for n in (0, 24)]),
+    # remove_by_idx: all 2-slot structures, and the 3-slot structures that contain a leading slot with collisions and an
+    # extension block (promotion + back-link repair)
+    ag('remove_idx', 'h_remove_idx', ['qhasharr_remove_by_idx', 'remove_data', 'remove_slot', 'copy_slot'],
+       [dict(HM=2, IMGID=n, _IMG_INIT=cinit(img), unwind=5) for n, img in enumerate(images(2))] +
+       [dict(HM=3, IMGID=n, _IMG_INIT=cinit(img), unwind=6, **({} if n % 4 == 0 else {'tier': 'thorough'})) for n, img in enumerate(images(3))
+        if any(sl[0] >= 2 for sl in img) and any(sl[0] == -2 for sl in img)]),
     ag('init_attach', 'h_init_attach', ['qhasharr', 'qhasharr_calculate_memsize', 'qhasharr_free'], [dict(HM=2, unwind=6), dict(HM=4, unwind=6)], props=['C07']),
     ag('relocate', 'h_relocate', ['qhasharr_put_by_obj', 'qhasharr'], inst_all((33,), with_slow=False), props=['C07'], unwindset='qv_memcpy.0:17,qhashmd5.0:17'),
 ]
